@@ -99,6 +99,10 @@ class Project(object):
         except KeyError:
             pass
 
+        if '' in name.split('.'):
+            # 'a..b', 'a.': no module has a name with an empty component
+            raise ImportError(name)
+
         path = self.get_path()
         filename = None
         is_source = False
